@@ -22,14 +22,19 @@ HEADER = ("From PintV Require Import Model.UC Model.Wraps Model.WrapsRun.\n"
 ALIAS = {"m": "meter", "metre": "meter", "cm": "centimeter", "mm": "millimeter", "km": "kilometer",
          "ft": "foot", "s": "second", "ms": "millisecond", "min": "minute", "h": "hour",
          "kg": "kilogram", "g": "gram", "lb": "pound", "N": "newton", "Hz": "hertz", "l": "liter",
-         "rad": "radian"}
+         "rad": "radian", "K": "kelvin", "degC": "degree_Celsius", "celsius": "degree_Celsius",
+         "degF": "degree_Fahrenheit", "fahrenheit": "degree_Fahrenheit"}
 GROUP = {
     "L": ["meter", "m", "metre", "centimeter", "cm", "millimeter", "mm", "kilometer", "km", "inch",
           "foot", "ft", "yard", "mile"],
     "T": ["second", "s", "millisecond", "ms", "minute", "min", "hour", "h", "day"],
     "M": ["kilogram", "kg", "gram", "g", "pound", "lb"],
+    # offset units: conversion is affine, not a scaling; they only ever stand alone with exponent 1
+    "K": ["kelvin", "K", "degC", "degree_Celsius", "celsius", "degF", "degree_Fahrenheit", "fahrenheit",
+          "degC", "degF"],
 }
-BASEDIM = {"L": "[length]", "T": "[time]", "M": "[mass]"}
+BASEDIM = {"L": "[length]", "T": "[time]", "M": "[mass]", "K": "[temperature]"}
+TEMP = {"K": 1}
 SPECIAL = {   # name -> dimension as {group: exp}
     "newton": {"M": 1, "L": 1, "T": -2}, "N": {"M": 1, "L": 1, "T": -2},
     "hertz": {"T": -1}, "Hz": {"T": -1}, "liter": {"L": 3}, "l": {"L": 3},
@@ -41,7 +46,11 @@ SHAPES = [{"L": 1}, {"T": 1}, {"M": 1}, {"L": 1, "T": -1}, {"L": 2}, {"L": 3}, {
           {"L": 1, "T": -2}, {"T": -1}, {}, {"M": 1, "L": -3}, {"L": 1}, {"T": 1}, {"L": 1, "T": -1}]
 DIMSPECS = [("[length]", {"L": 1}), ("[time]", {"T": 1}), ("[mass]", {"M": 1}), ("[speed]", {"L": 1, "T": -1}),
             ("[velocity]", {"L": 1, "T": -1}), ("[force]", {"M": 1, "L": 1, "T": -2}), ("[volume]", {"L": 3}),
-            ("[frequency]", {"T": -1})]
+            ("[frequency]", {"T": -1}), ("[temperature]", {"K": 1})]
+# shapes for plain-unit specs, untouched arguments, ret entries, check(): temperatures included
+# (never for '=A' definitions: references multiply units, which offset units refuse)
+SHAPES_T = SHAPES + [TEMP, TEMP]
+
 
 
 def spec_items(s):
@@ -90,6 +99,8 @@ def canonical(items):
 def expr_for_dim(rng, dim):
     """a random unit expression (items) of the given dimension {group: exp}"""
     dim = dict(norm_dim(dim))
+    if dim == TEMP:
+        return [(rng.choice(GROUP["K"]), 1)]
     items = []
     if rng.random() < 0.3:
         cands = [n for n, d in SPECIAL.items() if d and all(abs(dim.get(g, 0)) >= abs(x) and dim.get(g, 0) * x > 0 for g, x in d.items())]
@@ -113,7 +124,7 @@ def expr_for_dim(rng, dim):
 
 def other_dim(rng, dim):
     while True:
-        d = rng.choice(SHAPES)
+        d = rng.choice(SHAPES_T)
         if norm_dim(d) != norm_dim(dim):
             return d
 
@@ -315,7 +326,7 @@ def gen_specs(rng, n, malformed):
         if k == "none":
             specs[i] = None
         elif k in ("str", "unit"):
-            specs[i] = {k: [list(x) for x in expr_for_dim(rng, rng.choice(SHAPES))]}
+            specs[i] = {k: [list(x) for x in expr_for_dim(rng, rng.choice(SHAPES_T))]}
     for i, nm in zip(defpos, defnames):
         specs[i] = {"ref": [[nm, 1]]}
     for i in refpos:
@@ -362,7 +373,7 @@ def gen_values(rng, specs):
             defdims[x] = val_dim(vals[i])
     for i, (k, x) in enumerate(cl):
         if k == "none":
-            vals[i] = val_qty(rng, rng.choice(SHAPES)) if rng.random() < 0.5 else val_num(rng)
+            vals[i] = val_qty(rng, rng.choice(SHAPES_T)) if rng.random() < 0.5 else val_num(rng)
         elif k == "unit":
             d = items_dim([tuple(y) for y in spec_items(x)])
             r = rng.random()
@@ -448,9 +459,9 @@ def gen_ret(rng, specs, malformed):
         if r < 0.25:
             return None
         if r < 0.5:
-            return {"str": [list(x) for x in expr_for_dim(rng, rng.choice(SHAPES))]}
+            return {"str": [list(x) for x in expr_for_dim(rng, rng.choice(SHAPES_T))]}
         if r < 0.65:
-            return {"unit": [list(x) for x in expr_for_dim(rng, rng.choice(SHAPES))]}
+            return {"unit": [list(x) for x in expr_for_dim(rng, rng.choice(SHAPES_T))]}
         pool = defs if (defs and not (malformed and rng.random() < 0.3)) else (REFNAMES if malformed else defs)
         if not pool:
             return {"str": [list(x) for x in expr_for_dim(rng, rng.choice(SHAPES))]}
@@ -544,7 +555,7 @@ def gen_check_plan(rng, malformed):
     dims, vals = [], []
     for _ in range(n):
         r = rng.random()
-        shape = rng.choice(SHAPES)
+        shape = rng.choice(SHAPES_T)
         if r < 0.2:
             dims.append(None)
         elif r < 0.45:
@@ -580,7 +591,7 @@ def gen_check_plan(rng, malformed):
 # dimension spec items may name dimensions ([length]); they render like units
 NAME_DIM.update({"[length]": {"L": 1}, "[time]": {"T": 1}, "[mass]": {"M": 1}, "[speed]": {"L": 1, "T": -1},
                  "[velocity]": {"L": 1, "T": -1}, "[force]": {"M": 1, "L": 1, "T": -2}, "[volume]": {"L": 3},
-                 "[frequency]": {"T": -1}})
+                 "[frequency]": {"T": -1}, "[temperature]": {"K": 1}})
 
 
 # ------------------------------------------------------------------ running one plan on pint
@@ -921,6 +932,86 @@ def run_check(w, plan):
     return term, fails
 
 
+# ------------------------------------------------------------------ context-mediated conversions (oracle only)
+CTX_PAIRS = [   # (units of the argument, declared units) convertible only inside context 'sp'
+    (["nanometer", "micrometer", "angstrom", "m", "cm"], ["hertz", "Hz", "terahertz", "1/s", "kHz"]),
+    (["hertz", "THz", "gigahertz", "1/s"], ["nanometer", "um", "meter", "mm"]),
+]
+
+
+def gen_context_plan(rng):
+    src, dst = rng.choice(CTX_PAIRS)
+    n = rng.randint(1, 3)
+    i = rng.randrange(n)                                   # the parameter that converts through the context
+    mags = [str(F(rng.randint(1, 900), rng.choice([1, 1, 2, 7]))) for _ in range(3)]
+    return {"kind": "context", "n": n, "i": i, "spec": rng.choice(dst), "as_unit": rng.random() < 0.3,
+            "calls": [[m, rng.choice(src)] for m in mags], "strict": rng.random() < 0.5,
+            "delivery": rng.choice(["positional", "keyword", "default"]),
+            "order": rng.choice(["inside-first", "outside-first"])}
+
+
+def run_context(w, plan):
+    """wraps on a parameter whose conversion exists only while context 'sp' is active: the function
+    must receive q.to(unit) as computed inside the context (several calls through ONE wrapper), and
+    the same wrapper must refuse the call with DimensionalityError outside the context"""
+    ureg, R = w.ureg, w.ref
+    fails = []
+    names = ["a", "b", "c"][:plan["n"]]
+    i = plan["i"]
+    spec = ureg.Unit(plan["spec"]) if plan["as_unit"] else plan["spec"]
+    specs = [None] * plan["n"]
+    specs[i] = spec
+    qs = [ureg.Quantity(w.mag(m), u) for m, u in plan["calls"]]
+    expected = []
+    with R.context("sp"):
+        expected = [R.Quantity(w.mag(m), u).to(plan["spec"]).magnitude for m, u in plan["calls"]]
+    defaults = [_NODEFAULT] * plan["n"]
+    if plan["delivery"] == "default":
+        for j in range(i, plan["n"]):
+            defaults[j] = qs[0] if j == i else 5
+    rec = []
+    f = make_func(names, defaults, 1, rec)
+    wrapped = ureg.wraps(None, specs, plan["strict"])(f)
+
+    def call(q):
+        others = {nm: 5 for j, nm in enumerate(names) if j != i}
+        if plan["delivery"] == "positional":
+            return wrapped(*[q if j == i else 5 for j in range(plan["n"])])
+        if plan["delivery"] == "default" and q is qs[0]:
+            return wrapped(*[5 for j in range(i)])
+        return wrapped(**dict(others, **{names[i]: q}))
+
+    def outside(tag):
+        rec.clear()
+        try:
+            call(qs[0])
+        except w.pint.DimensionalityError:
+            return
+        except Exception as e:                  # noqa: BLE001
+            fails.append((f"context-outside:{w.errclass(e)}", f"{tag}: raised {srepr(e)} instead of DimensionalityError"))
+            return
+        fails.append(("context-outside:no-DimensionalityError",
+                      f"{tag}: {plan['calls'][0]} declared {plan['spec']!r} outside any context was handed over as "
+                      f"{srepr(rec[0][i]) if rec else '?'} instead of raising DimensionalityError"))
+
+    if plan["order"] == "outside-first":
+        outside("before the context was ever entered")
+    with ureg.context("sp"):
+        for q, e, c in zip(qs, expected, plan["calls"]):
+            rec.clear()
+            try:
+                call(q)
+            except Exception as ex:             # noqa: BLE001
+                fails.append((f"context-inside:{w.errclass(ex)}", f"inside 'sp': {c} declared {plan['spec']!r} raised {srepr(ex)}"))
+                continue
+            r = rec[0][i]
+            if not (exact_num(r) and r == e):
+                fails.append(("context-inside:wrong-magnitude",
+                              f"inside 'sp': {c} declared {plan['spec']!r}: received {srepr(r)}, q.to() gives {srepr(e)}"))
+    outside("after the context was left")
+    return fails
+
+
 # ------------------------------------------------------------------ defect switches (DESIGN 2.6)
 def detect_quirks(w):
     """replay the two _refuted witnesses on the implementation"""
@@ -951,7 +1042,7 @@ def table_cases(w, rng, count):
         d = ureg.get_dimensionality(n)
         out.append((f"KDim {coq_uc({n: F(1)})} (Ok {coq_uc({k: F(v) for k, v in d.items()})})", {"dim": n}))
     for _ in range(count):
-        shape = rng.choice(SHAPES)
+        shape = rng.choice(SHAPES_T)
         a, b = expr_for_dim(rng, shape), expr_for_dim(rng, shape if rng.random() < 0.85 else other_dim(rng, shape))
         m = rnd_mag(rng)
         try:
@@ -970,7 +1061,9 @@ def run(ck):
     ck.rule = ("random signatures of 1-5 parameters (defaults on a suffix), spec lists mixing None / unit strings / "
                "Unit objects / '=A' '=A*B' '=A**2' '=A/B' '=A**-1' references, effective values mostly compatible "
                "(10% incompatible, 10-15% bare numbers, zero magnitudes), delivery positional / keyword / default, "
-               "strict on/off, scalar / tuple / list ret with numbers or Quantities returned; malformed stream: wrong "
+               "strict on/off, scalar / tuple / list ret with numbers or Quantities returned; offset units (degC, degF, kelvin: "
+               "affine conversion) on plain-unit specs / ret / check; an oracle-only stream of conversions that exist only "
+               "inside context 'sp' (several calls through one wrapper, refusal outside the context); malformed stream: wrong "
                "arity, missing / surplus / duplicated / unknown arguments, undefined references, result length "
                "mismatch; check(): dimension names, unit strings, Unit objects. Fraction registry. non-trivial = "
                "distinct (plan) with at least one non-None spec")
@@ -1045,6 +1138,13 @@ def run(ck):
         ck.count("check malformed" if malformed else "check valid")
         ck.count("check outcome " + term.rsplit("(C", 1)[1].split(" ", 1)[0].rstrip(")"))
 
+    for i in range(400 if thorough else 120):
+        plan = gen_context_plan(rng)
+        for key, desc in run_context(w, plan):
+            fails_all.append((key, desc, plan))
+        ck.case(key=("context", json.dumps(plan, sort_keys=True)), nontrivial=True, sample=plan if i == 0 else None)
+        ck.count("context stream (oracle only)")
+
     bad = ck.coq_mismatches("c17", HEADER, [c for c, _ in cases], "c17_ok")
     ck.extra["model_vs_impl_cases"] = len(cases)
     ck.extra["model_vs_impl_disagreements"] = None if bad is None else len(bad)
@@ -1069,10 +1169,12 @@ def replay(ck, path):
     data = json.load(open(path))
     print(json.dumps(data, indent=1)[:4000])
     plan = data.get("replay", {})
-    if not isinstance(plan, dict) or plan.get("kind") not in ("wraps", "check"):
+    if not isinstance(plan, dict) or plan.get("kind") not in ("wraps", "check", "context"):
         return 0
     w = World()
-    if plan["kind"] == "wraps":
+    if plan["kind"] == "context":
+        term, fails = None, run_context(w, plan)
+    elif plan["kind"] == "wraps":
         term, fails = run_wraps(w, plan, detect_quirks(w))
     else:
         term, fails = run_check(w, plan)
